@@ -27,6 +27,9 @@ func GenC04() *rapid.Generator[C04Case] {
 		if rapid.IntRange(0, 59).Draw(t, "big lineage") == 31 {
 			f = bigFam.Draw(t, "big family") // genomes of up to a few hundred genes
 		}
+		if rapid.IntRange(0, 9).Draw(t, "large innovation numbers") == 0 {
+			f = enlargeFamilyInnovations(t, f)
+		}
 		c := C04Case{P1: f[0], P2: f[1], Method: rapid.SampledFrom(mateKinds).Draw(t, "method"), Seed: int64(rapid.IntRange(0, 1<<30).Draw(t, "seed"))}
 		if rapid.IntRange(0, 9).Draw(t, "identical parents") == 0 {
 			c.P2 = c.P1
